@@ -70,7 +70,9 @@ def one_case(ctx, idx):
         for t in T.values():
             t.clear_to_send_timeout = 4.0
         chans = []
-        for _ in range(3 + senders):
+        REQ_KINDS = ("exec", "pty", "env", "shell", "subsys-unknown", "req-unknown", "exit-status")
+        nreq = sum(1 for k in kinds if k in REQ_KINDS)
+        for _ in range(3 + senders + nreq):
             chans.append(p.session())
         if any(s is None for _, s in chans):
             ctx.inconclusive("C11 channel setup failed")
@@ -78,6 +80,11 @@ def one_case(ctx, idx):
         idx_of = dict(c=0, s=1)
         pi, ii = idx_of[peer], idx_of[init]
         work, spare, third = chans[0], chans[1], chans[2]
+        # a rejected request closes its channel, so every request kind gets a channel of its own
+        req_chans = {}
+        for k in kinds:
+            if k in REQ_KINDS:
+                req_chans[k] = chans[3 + senders + len(req_chans)]
         results = {}
         expect = {}
 
@@ -116,19 +123,19 @@ def one_case(ctx, idx):
                 expect["stderr"] = epayload
                 run("stderr", lambda: pc.sendall_stderr(epayload))
             elif k == "exec":
-                run("exec", lambda: spare[pi].exec_command("true"))
+                run("exec", lambda: req_chans["exec"][pi].exec_command("true"))
             elif k == "pty":
-                run("pty", lambda: spare[pi].get_pty())
+                run("pty", lambda: req_chans["pty"][pi].get_pty())
             elif k == "env":
-                run("env", lambda: spare[pi].set_environment_variable("A", "b"))
+                run("env", lambda: req_chans["env"][pi].set_environment_variable("A", "b"))
             elif k == "shell":
-                run("shell", lambda: spare[pi].invoke_shell())
+                run("shell", lambda: req_chans["shell"][pi].invoke_shell())
             elif k == "subsys-unknown":
-                run("subsys-unknown", lambda: _expect_reject(lambda: spare[pi].invoke_subsystem("nope")))
+                run("subsys-unknown", lambda: _expect_reject(lambda: req_chans["subsys-unknown"][pi].invoke_subsystem("nope")))
             elif k == "req-unknown":
-                run("req-unknown", lambda: _raw_request(T[peer], spare[pi], "vf-unknown@verif"))
+                run("req-unknown", lambda: _raw_request(T[peer], req_chans["req-unknown"][pi], "vf-unknown@verif"))
             elif k == "exit-status":
-                run("exit-status", lambda: spare[pi].send_exit_status(7))
+                run("exit-status", lambda: req_chans["exit-status"][pi].send_exit_status(7))
             elif k == "eof":
                 run("eof", lambda: third[pi].shutdown_write())
             elif k == "close":
